@@ -207,6 +207,7 @@ func parseCase(line string) (tcase, bool) {
 type blkrec struct {
 	c    cid.Cid
 	size int
+	dir  bool // a directory node with entries (emitted when go-mfs flushes, in map order)
 }
 
 type recDAG struct {
@@ -222,7 +223,13 @@ func (r *recDAG) Add(ctx context.Context, n ipld.Node) error {
 	r.st.mu.Lock()
 	r.st.addIdx = len(r.stream)
 	r.st.mu.Unlock()
-	r.stream = append(r.stream, blkrec{n.Cid(), len(n.RawData())})
+	isDir := false
+	if pn, ok := n.(*merkledag.ProtoNode); ok && len(pn.Links()) > 0 {
+		if fsn, err := unixfs.FSNodeFromBytes(pn.Data()); err == nil && fsn.Type() == unixfs.TDirectory {
+			isDir = true
+		}
+	}
+	r.stream = append(r.stream, blkrec{n.Cid(), len(n.RawData()), isDir})
 	err := r.inner.Add(ctx, n)
 	if err != nil {
 		r.failed = append(r.failed, len(r.stream)-1)
@@ -623,6 +630,70 @@ func (n *namer) logTok(evs []event, useIdx bool) string {
 	return strings.Join(parts, ";")
 }
 
+// routeSig is what two adds of the same input over different entry points
+// must have in common although go-mfs flushes directories in map order (so
+// the block order, and with it the shard composition, may differ): the
+// blocks every destination was handed, the allocation and pin calls by kind,
+// and the root / meta / cluster-DAG entries up to the CIDs of cbor nodes.
+func (n *namer) routeSig(st *caseState) string {
+	perPeer := map[int]map[int]bool{}
+	var pins []string
+	nalloc, nshard := 0, 0
+	for _, e := range st.events {
+		switch e.kind {
+		case evAlloc:
+			nalloc++
+		case evPut:
+			id := n.put(e.c)
+			if id >= metaBase {
+				continue
+			}
+			if perPeer[e.peer] == nil {
+				perPeer[e.peer] = map[int]bool{}
+			}
+			perPeer[e.peer][id] = true
+		case evPin:
+			cp := *e.pin
+			switch cp.Type {
+			case api.ShardType:
+				nshard++
+				continue
+			case api.ClusterDAGType:
+				cp.Cid = cid.Undef
+			default:
+				cp.Reference = nil
+			}
+			pins = append(pins, n.pinTok(&cp)+string(e.outcome))
+		}
+	}
+	var parts []string
+	if nshard > 0 {
+		// which destination gets a block depends on the shard it falls into
+		all := map[int]bool{}
+		for _, m := range perPeer {
+			for id := range m {
+				all[id] = true
+			}
+		}
+		perPeer = map[int]map[int]bool{0: all}
+	}
+	for p := 0; p < nPeers; p++ {
+		var ids []int
+		for id := range perPeer[p] {
+			ids = append(ids, id)
+		}
+		sort.Ints(ids)
+		parts = append(parts, fmt.Sprintf("%d:%s", p, common.Ints(ids)))
+	}
+	shardy := "noshards"
+	if nshard > 0 {
+		shardy = "shards"
+	} else {
+		shardy += fmt.Sprintf("-allocs%d", nalloc)
+	}
+	return strings.Join(parts, ";") + "|" + strings.Join(pins, ";") + "|" + shardy
+}
+
 // nodesTok decodes the delivered cbor nodes: links "0".."n-1" in order.
 func (n *namer) nodesTok(st *caseState) string {
 	var parts []string
@@ -742,7 +813,7 @@ func runSyn(ctx context.Context, c tcase, allocs [][]int, afail, pfail []int, fa
 	last := cid.Undef
 	for _, b := range blks {
 		data := make([]byte, b[1])
-		copy(data, []byte(fmt.Sprintf("%08x", b[0])))
+		data[0], data[1], data[2], data[3] = byte(b[0]>>24), byte(b[0]>>16), byte(b[0]>>8), byte(b[0])
 		nd := merkledag.NewRawNode(data)
 		last = nd.Cid()
 		if err := ar.rec.Add(ctx, nd); err != nil {
@@ -899,7 +970,7 @@ func run(ctx context.Context, c tcase) string {
 			return "# inconclusive " + twin.st.infra + " " + c.input()
 		}
 		same := twin.res == main.res && (twin.res != "ok" || twin.root.Equals(main.root)) &&
-			nm.logTok(twin.st.events, false) == nm.logTok(main.st.events, false)
+			nm.routeSig(twin.st) == nm.routeSig(main.st)
 		reqTok = b01(same)
 	}
 
